@@ -3,6 +3,7 @@ package main
 import (
 	"encoding/json"
 	"fmt"
+	"go/ast"
 	"go/types"
 	"math/big"
 	"math/rand"
@@ -176,6 +177,17 @@ func (v *Verifier) buildHarness(fr *FuncRef, fc *FuncContract, cs caseSpec) *har
 			}
 		}
 		h.params = append(h.params, hp)
+	}
+	usesRnd := false
+	for _, m := range fc.Modifies {
+		if id, ok := m.(*ast.Ident); ok && id.Name == "rnd" {
+			usesRnd = true
+		}
+	}
+	if usesRnd {
+		imports["bytes"] = true
+		imports["crypto/rand"] = true
+		fmt.Fprintf(&assign, "\t\tstream, _ := hex.DecodeString(vec[\"stream\"])\n\t\trd := bytes.NewReader(stream)\n\t\tsaved := rand.Reader\n\t\trand.Reader = rd\n\t\tdefer func() { rand.Reader = saved; out[\"stream.remaining\"] = fmt.Sprint(rd.Len()) }()\n")
 	}
 	// call expression
 	args := strings.TrimSuffix(callArgs.String(), ", ")
@@ -469,6 +481,14 @@ func (v *Verifier) evalOn(fr *FuncRef, fc *FuncContract, cs caseSpec, vec, out m
 	}
 	ex.frames = []*Frame{{pkg: fr.Pkg, fn: fr, vars: map[types.Object]*Obj{}}}
 	ex.entry = ex.snapshot()
+	if st, ok := vec["stream"]; ok {
+		stream, _ := hexDecode(st)
+		rndStream = stream
+		defer func() { rndStream = nil }()
+		ex.ghost["rnd"] = IntI(0)
+		ex.ghost["rndfail"] = BoolC(false)
+		ex.ghostEntry = map[string]*Term{"rnd": IntI(0), "rndfail": BoolC(false)}
+	}
 	prectx := &SpecCtx{ex: ex, vars: ex.specVars, old: ex.entry, pkg: fr.Pkg}
 	pre = true
 	for _, rq := range fc.Requires {
@@ -568,6 +588,14 @@ func (v *Verifier) evalOn(fr *FuncRef, fc *FuncContract, cs caseSpec, vec, out m
 	bindResults(vars, results)
 	ctx := &SpecCtx{ex: ex, vars: vars, old: ex.entry, pkg: fr.Pkg}
 	verdicts = map[string]string{}
+	if rem, ok := out["stream.remaining"]; ok {
+		var r int
+		fmt.Sscan(rem, &r)
+		consumed := len(rndStream) - r
+		ex.ghost["rnd"] = IntI(int64(consumed / 32))
+		// a read failure is the only way to leave fewer than a whole block unread or to run dry
+		ex.ghost["rndfail"] = BoolC(out["panic"] != "" && (strings.Contains(out["panic"], "EOF")))
+	}
 	if p, ok := out["panic"]; ok {
 		// the real function panicked: a violation unless the contract's ensures_panics condition holds
 		if fc.Panics != nil {
@@ -651,6 +679,8 @@ func (v *Verifier) genVectors(o *Oblig, keys []string, n int, seed int64) []map[
 			switch {
 			case strings.HasPrefix(k, "bytes("):
 				m[k] = "61626364"
+			case k == "stream":
+				m[k] = strings.Repeat("00", 32) + strings.Repeat("ff", 32) + strings.Repeat("01", 32)
 			case strings.HasPrefix(k, "string("):
 				m[k] = ""
 			default:
@@ -686,6 +716,30 @@ func (v *Verifier) genVectors(o *Oblig, keys []string, n int, seed int64) []map[
 				b := make([]byte, ln)
 				rng.Read(b)
 				m[k] = fmt.Sprintf("%x", b)
+			case k == "stream":
+				// entropy stream: blocks that are 0, n, multiples/neighbours of n, or random; sometimes too short
+				nb := 1 + rng.Intn(4)
+				var st []byte
+				for j := 0; j < nb; j++ {
+					var blk *big.Int
+					switch rng.Intn(6) {
+					case 0:
+						blk = bi(0)
+					case 1:
+						blk = N
+					case 2:
+						blk = new(big.Int).Add(N, pow2(128))
+					case 3:
+						blk = new(big.Int).Sub(pow2(256), bi(1))
+					default:
+						blk = new(big.Int).Rand(rng, pow2(256))
+					}
+					st = append(st, blk.FillBytes(make([]byte, 32))...)
+				}
+				if rng.Intn(8) == 0 {
+					st = st[:len(st)-1-rng.Intn(20)]
+				}
+				m[k] = fmt.Sprintf("%x", st)
 			case strings.HasPrefix(k, "string("):
 				b := make([]byte, []int{0, 1, 32, 33, 65, 31}[rng.Intn(6)])
 				rng.Read(b)
@@ -892,6 +946,9 @@ func (v *Verifier) tryReplay(prop string, o *Oblig, rep map[string]interface{}, 
 			if p.kind == "string" {
 				keys = append(keys, "string("+p.name+")")
 			}
+		}
+		if strings.Contains(h.src, "rand.Reader = rd") {
+			keys = append(keys, "stream")
 		}
 		sort.Strings(keys)
 		var model *Oblig
